@@ -20,6 +20,9 @@ let more_classes = [|
   (1, ch 'c', 18); (4, ch 'i', 26); (4, ch 'i', 700); (4, ch 'i', 1082); (8, ch 'd', 701); (8, ch 'd', 1114); (6, ch 'i', 829);
   (8, ch 'i', 774); (16, ch 'd', 1186); (16, ch 'd', 600); (24, ch 'd', 628); (32, ch 'd', 603); (-1, ch 'i', 1043);
   (-1, ch 'i', 17); (-1, ch 'd', 25); (-1, ch 'i', 0); (-1, ch 'i', 99999); (4, ch 'i', 0);
+  (* dropped columns keep attlen/attalign but have type id 0: alignments that differ from what the length alone suggests
+     (dropped uuid 16/'c', tid 6/'s', an 8-byte 'i' type, name 64/'c', a 'd'-aligned varlena); seeded change C03-6 *)
+  (16, ch 'c', 0); (6, ch 's', 0); (8, ch 'i', 0); (64, ch 'c', 0); (-1, ch 'd', 0); (12, ch 'i', 0);
   (* schema without attalign: the tool's catalog schemas (fallback table) *)
   (4, 0, 26); (64, 0, 19); (4, 0, 23); (4, 0, 700); (1, 0, 16); (1, 0, 18); (2, 0, 21); (8, 0, 20); (-1, 0, 25) |]
 
@@ -35,7 +38,7 @@ let datum_for r (c : column) (form : int) : datum =
   let len = iz c.c_len in
   if form = 0 then DNull
   else if len > 0 then DFixed (payload r len)
-  else if len = -2 then DCStr (nonzero r (pick r [| 0; 1; 5; 30 |]))
+  else if len = -2 then DCStr (nonzero r (pick r [| 0; 1; 5; 30; 63; 64; 65; 72; 200 |]))   (* 64/65: a cstring is not a name (seeded change C03-5) *)
   else match form with
     | 1 -> DShort (payload r (pick r [| 0; 1; 2; 3; 7; 125; 126 |]))
     | 2 -> DLong (payload r (pick r [| 0; 1; 60; 124; 126; 127; 128; 252; 255; 256; 2000 |]))   (* 60,124,252: header byte 0x00 (total % 64 = 0) *)
